@@ -1,26 +1,74 @@
 /-
 C14 — Two-column layout is the aligned juxtaposition of two wrapped texts.
-(first instalment: column widths and totality; the juxtaposition clauses follow in CompositeLemmas)
+(a) clauses proved of the SPECIFICATION `Spec.twoColumns` (written from the property statement, every
+token type); (b) the MODEL of InsertTwoColumnsOpts at cluster level has exactly that shape
+(CombineColumnBlocks, the float percentage arithmetic and both Wrap calls included).
 -/
 import RosedVerif.Model.InstAFacts
+import RosedVerif.Model.CompositeLemmas
+import RosedVerif.Spec.CompositeLemmas
+import RosedVerif.Model.WrapFits
 namespace RosedVerif.Props
 open RosedVerif
 
-/-- for EVERY percentage (below 0, above 1, anything between), every width and every gap both
-columns are at least 2 wide and the operation continues with the wrap-and-combine body — the
-explicit panic of the source is unreachable -/
-theorem C14_columns_at_least_two {α : Type} [DecidableEq α] (cx : Ctx α) (ed : Editor α) (pos : Int)
-    (l r : List α) (gap width : Int) (pct : Pct) (o : Options α) (hne : ¬(l.isEmpty ∧ r.isEmpty)) :
-    ∃ leftW rightW, 2 ≤ leftW ∧ 2 ≤ rightW ∧
-      ed.insertTwoColumnsOpts cx pos l r gap width pct o = twoColBody cx ed pos l r gap leftW rightW o :=
-  insertTwoColumnsOpts_eq cx ed pos l r gap width pct o hne
+/-- both columns are at least 2 wide and, with the gap, fill exactly the minimum-clamped width, for
+every percentage from below 0 to above 1, every width, every gap ≥ 0 -/
+theorem C14_widths (gap width : Int) (pct : Pct) (hg : 0 ≤ gap) :
+    2 ≤ (Spec.colWidths gap width pct).1 ∧ 2 ≤ (Spec.colWidths gap width pct).2 ∧
+    ((Spec.colWidths gap width pct).1 : Int) + gap + (Spec.colWidths gap width pct).2 = max width (gap + 4) :=
+  Spec.colWidths_spec gap width pct hg
 
-/-- at cluster level the whole operation is total for every gap ≥ 0 -/
-theorem C14_total_clusters {α : Type} [DecidableEq α] (cx : Ctx α)
-    (htriv : ∀ s, cx.ends s = List.range' 1 s.length) (hb : ∀ a, 0 < cx.blen a) (ed : Editor α) (p : Int)
-    (l r : List α) (g w : Int) (pct : Pct) (o : Options α) (hg : 0 ≤ g) :
-    ∃ x, ed.insertTwoColumnsOpts cx p l r g w pct o = .ok x :=
-  insertTwoColumnsOpts_total_triv cx htriv hb ed p l r g w pct o hg
+/-- line i is the i-th wrapped left line padded to the left width plus the gap, followed by the i-th
+wrapped right line; the right column starts at the same cluster offset on every line; no line exceeds
+the total width; max(left, right) lines -/
+theorem C14_lines {α : Type} (tk : Spec.Toks α) (left right : List α) (gap width : Int) (pct : Pct)
+    (hg : 0 ≤ gap) (i : Nat) (hi : i < (Spec.twoColumns tk left right gap width pct).length) :
+    let lw := (Spec.colWidths gap width pct).1
+    let rw := (Spec.colWidths gap width pct).2
+    let wl := Spec.wrapLines tk lw left
+    let wr := Spec.wrapLines tk rw right
+    (Spec.twoColumns tk left right gap width pct)[i] =
+        Spec.padTo tk (lw + gap.toNat) (wl.getD i []) ++ wr.getD i [] ∧
+    ((Spec.twoColumns tk left right gap width pct)[i]).take (lw + gap.toNat) =
+        Spec.padTo tk (lw + gap.toNat) (wl.getD i []) ∧
+    (Spec.padTo tk (lw + gap.toNat) (wl.getD i [])).length = lw + gap.toNat ∧
+    (((Spec.twoColumns tk left right gap width pct)[i]).length : Int) ≤ max width (gap + 4) :=
+  Spec.twoColumns_line tk left right gap width pct hg i hi
+
+theorem C14_line_count {α : Type} (tk : Spec.Toks α) (left right : List α) (gap width : Int) (pct : Pct) :
+    (Spec.twoColumns tk left right gap width pct).length =
+      max (Spec.wrapLines tk (Spec.colWidths gap width pct).1 left).length
+          (Spec.wrapLines tk (Spec.colWidths gap width pct).2 right).length :=
+  Spec.twoColumns_length tk left right gap width pct
+
+/-- **the model** at cluster level: for every percentage, width, gap ≥ 0 the operation inserts (at the
+normalised position, C09) a block whose line i is `left_i ++ spaces up to leftW+gap ++ right_i`, with
+both widths ≥ 2 summing to the clamped total, no line longer than the total, trailing separator
+exactly when trailing separators are on (`Block.join` with `!noTrailing`) -/
+theorem C14_model {α : Type} [DecidableEq α] (cx : Ctx α) (htriv : ∀ s, cx.ends s = List.range' 1 s.length)
+    (hsp : cx.isSpace cx.sp = true) (ed : Editor α) (pos : Int) (l r : List α) (gap width : Int) (pct : Pct)
+    (o : Options α) (hne : ¬(l.isEmpty ∧ r.isEmpty)) (hg : 0 ≤ gap) :
+    ∃ (leftW rightW : Int) (ls : List (List α)), 2 ≤ leftW ∧ 2 ≤ rightW ∧
+      leftW + gap + rightW = max width (gap + 4) ∧
+      ed.insertTwoColumnsOpts cx pos l r gap width pct o =
+        ed.insert cx pos (Block.mk ls (o.withDefaults cx).lineSep (!(o.withDefaults cx).noTrailing)).join ∧
+      ls.length = max (colLines cx l leftW (o.withDefaults cx).lineSep).length
+        (colLines cx r rightW (o.withDefaults cx).lineSep).length ∧
+      (∀ line ∈ ls, (line.length : Int) ≤ max width (gap + 4)) ∧
+      ∀ (i : Nat) (hi : i < ls.length),
+        ls[i] = (colLines cx l leftW (o.withDefaults cx).lineSep).getD i [] ++
+          List.replicate ((leftW + gap).toNat -
+            ((colLines cx l leftW (o.withDefaults cx).lineSep).getD i []).length) cx.sp ++
+          (colLines cx r rightW (o.withDefaults cx).lineSep).getD i [] ∧
+        (ls[i].take (leftW + gap).toNat).length = (leftW + gap).toNat ∧
+        ls[i].drop (leftW + gap).toNat = (colLines cx r rightW (o.withDefaults cx).lineSep).getD i [] :=
+  insertTwoColumnsOpts_triv_width cx htriv hsp ed pos l r gap width pct o hne hg
+
+/-- on arbitrary code-point texts the operation returns normally (gap ≥ 0) and never reaches the
+explicit panic of the source, whatever the percentage -/
+theorem C14_total (ed : Editor Int) (p : Int) (l r : List Int) (g w : Int) (pct : Pct) (o : Options Int)
+    (hg : 0 ≤ g) : ∃ x, ed.insertTwoColumnsOpts cxA p l r g w pct o = .ok x :=
+  insertTwoColumnsOpts_total_A ed p l r g w pct o hg
 
 /-- both texts empty: nothing is inserted -/
 theorem C14_empty {α : Type} [DecidableEq α] (cx : Ctx α) (ed : Editor α) (p g w : Int) (pct : Pct)
